@@ -325,9 +325,10 @@ Qed.
 Definition applies (f : form) (src tgt : cty) : bool :=
   is_target tgt &&
   match f with
-  | FSlice _ => match vec_of tgt with Some _ => true | None => false end
+  | FSlice _ | FView _ => match vec_of tgt with Some _ => true | None => false end
   | FElem _ => match tgt with CBit => true | _ => false end
   | FDeclStatic => negb (is_runtime src)
+  | FMerge3A _ | FMerge3B _ => false        (* two sources: see merge3_* below *)
   | _ => true
   end.
 
@@ -335,11 +336,12 @@ Definition applies (f : form) (src tgt : cty) : bool :=
 Definition departs (f : form) (src tgt : cty) : bool :=
   match f with
   | FNextOp | FNextAttr | FValueOp | FValueAttr | FPushOp | FPushAttr | FElem _ => dep_stmt src tgt
-  | FSlice k => dep_stmt src tgt || negb (view_ok src tgt k) && doc_ok src tgt   (* constant into a U view of an S root *)
+  | FSlice k | FView k => dep_stmt src tgt || negb (view_ok src tgt k) && doc_ok src tgt   (* constant into a U view of an S root *)
   | FDeclSig | FDeclVar | FDeclStatic => dep_decl src tgt
   | FPortIn | FPortOut => dep_port src tgt           (* identical types only: widening is rejected although documented *)
   | FIfA | FRetA => dep_merge_a src tgt
   | FIfB | FRetB => dep_merge_b src tgt
+  | FMerge3A _ | FMerge3B _ => true
   end.
 
 Theorem matrix_partial f src tgt :
@@ -348,14 +350,19 @@ Proof.
   intros Ha Hd. unfold applies in Ha. apply andb_prop in Ha. destruct Ha as [Ht Ha].
   assert (S : dep_stmt src tgt = false -> stmt_ok tgt src tgt = doc_ok src tgt).
   { intros D. rewrite <- (retag_self tgt) at 1. apply matrix_stmt; [exact Ht|exact D|apply view_self; exact Ht]. }
-  destruct f; cbn [assign_ok departs] in *; try (apply S; exact Hd).
-  - (* slice *) destruct (vec_of tgt) eqn:V; [|discriminate Ha].
-    apply orb_false_elim in Hd. destruct Hd as [D1 D2].
+  assert (V : forall root, match vec_of tgt with Some _ => true | None => false end = true ->
+              dep_stmt src tgt || negb (view_ok src tgt root) && doc_ok src tgt = false ->
+              match vec_of tgt with Some _ => stmt_ok (retag root tgt) src tgt | None => false end = doc_ok src tgt).
+  { intros root Hv Hdv. destruct (vec_of tgt) eqn:V; [|discriminate Hv].
+    apply orb_false_elim in Hdv. destruct Hdv as [D1 D2].
     destruct (view_ok src tgt root) eqn:Vk.
     + apply matrix_stmt; assumption.
     + cbn [negb andb] in D2. rewrite D2.
       unfold stmt_ok, emits, cast_emit. unfold view_ok in Vk. apply orb_false_elim in Vk. destruct Vk as [R C].
-      rewrite R, C. cbn [negb]. apply andb_false_r.
+      rewrite R, C. cbn [negb]. apply andb_false_r. }
+  destruct f; cbn [assign_ok departs] in *; try discriminate Ha; try (apply S; exact Hd).
+  - (* slice *) apply V; assumption.
+  - (* whole-object view *) apply V; assumption.
   - (* element *) destruct tgt; try discriminate Ha. apply S; exact Hd.
   - apply matrix_decl; assumption.
   - apply matrix_decl; assumption.
@@ -371,7 +378,7 @@ Qed.
 (** forms whose emitted text is  target <= format_cast(target, source) *)
 Definition cast_form (f : form) : bool :=
   match f with
-  | FNextOp | FNextAttr | FValueOp | FValueAttr | FPushOp | FPushAttr | FSlice _ | FElem _ | FDeclSig | FDeclVar => true
+  | FNextOp | FNextAttr | FValueOp | FValueAttr | FPushOp | FPushAttr | FSlice _ | FView _ | FElem _ | FDeclSig | FDeclVar => true
   | _ => false
   end.
 
@@ -385,8 +392,8 @@ Proof.
   assert (S : ceval (cast_emit tgt tgt src) (enc src v) = Ok (enc tgt (conv_val src tgt v))).
   { rewrite <- (retag_self tgt) at 1 3. apply doc_value; try assumption. apply view_self; exact Ht. }
   destruct f; try discriminate Hc; cbn [root_kind]; try exact S.
-  cbn [departs] in Hd. apply orb_false_elim in Hd. destruct Hd as [_ D2]. rewrite Hok, andb_true_r in D2.
-  apply negb_false_iff in D2. apply doc_value; assumption.
+  all: cbn [departs] in Hd; apply orb_false_elim in Hd; destruct Hd as [_ D2]; rewrite Hok, andb_true_r in D2;
+    apply negb_false_iff in D2; apply doc_value; assumption.
 Qed.
 
 Theorem no_truncation f src tgt v :
@@ -481,3 +488,74 @@ Proof.
   destruct src; try discriminate Vs; destruct tgt; try discriminate Vt; cbn [trial doc_ok] in *;
     try (symmetry; exact T); reflexivity.
 Qed.
+
+
+(** ** merges whose other option has its own type (Null, Full, a narrower run-time value) *)
+
+(** Null / Full are never joined: every option is converted to the assignment target on its own, so Full is filled at
+    the TARGET width *)
+Theorem merge3_null_full a o tgt :
+  o = CNull \/ o = CFull ->
+  join a o = None /\ join o a = None /\
+  merge_ok a o tgt = redirect_ok a tgt && redirect_ok o tgt /\
+  merge_ok o a tgt = redirect_ok o tgt && redirect_ok a tgt.
+Proof.
+  intros [-> | ->]; unfold merge_ok; destruct a; cbn [join]; repeat split; reflexivity.
+Qed.
+
+Theorem full_at_target_width k m :
+  let tgt := mkvec k m in
+  ceval (cast_emit tgt tgt CFull) (VI 0) = Ok (enc tgt (ones m)) /\
+  ceval (cast_emit tgt tgt CNull) (VI 0) = Ok (enc tgt 0).
+Proof.
+  destruct k; cbn [mkvec]; unfold cast_emit; cbn [is_runtime negb ctor trial]; rewrite ?N.eqb_refl, ?N.leb_refl;
+    cbn [ceval conv_val enc]; split; reflexivity.
+Qed.
+
+(** soundness of a three-type merge on the universe the harness generates (widths 1..4 and 8): whatever is
+    accepted converts BOTH options to the target by documented conversions (directly or through the type of one of
+    them, [m3_doc]), outside the known departures
+    (run-time Integer into a vector, truthiness) *)
+Definition m3_widths : list N := [1; 2; 3; 4; 8]%N.
+Definition m3_sources : list cty :=
+  [CBit; CBool; CInteger] ++ flat_map (fun n => [CBV n; CU n; CS n]) m3_widths.
+Definition m3_others (tgt : cty) : list cty :=
+  CNull :: CFull ::
+  match vec_of tgt with
+  | Some (_, n) => if (1 <? n)%N then [CU (n - 1); CS (n - 1)] else []
+  | None => []
+  end.
+Definition m3_dep (a tgt : cty) : bool :=
+  match a, tgt with
+  | CInteger, (CU _ | CS _) => true
+  | (CBV _ | CU _ | CS _ | CInteger), CBool => true
+  | _, _ => false
+  end.
+Definition m3_sound_at (a o tgt : cty) : bool :=
+  implb (merge_ok a o tgt && negb (m3_dep a tgt) && negb (m3_dep o tgt)) (m3_doc a o tgt) &&
+  implb (merge_ok o a tgt && negb (m3_dep a tgt) && negb (m3_dep o tgt)) (m3_doc a o tgt).
+Definition m3_check : bool :=
+  forallb (fun tgt => forallb (fun a => forallb (fun o => m3_sound_at a o tgt) (m3_others tgt)) m3_sources)
+          (filter is_target m3_sources).
+
+Theorem merge3_sound_bounded : m3_check = true.
+Proof. vm_compute. reflexivity. Qed.
+
+Lemma merge3_sound_use a o tgt :
+  In tgt (filter is_target m3_sources) -> In a m3_sources -> In o (m3_others tgt) ->
+  m3_dep a tgt = false -> m3_dep o tgt = false ->
+  merge_ok a o tgt = true \/ merge_ok o a tgt = true -> m3_doc a o tgt = true.
+Proof.
+  intros Ht Ha Ho Da Do H. pose proof merge3_sound_bounded as C. unfold m3_check in C.
+  rewrite forallb_forall in C. specialize (C tgt Ht). rewrite forallb_forall in C. specialize (C a Ha).
+  rewrite forallb_forall in C. specialize (C o Ho). unfold m3_sound_at in C. rewrite Da, Do in C. cbn [negb] in C.
+  rewrite !andb_true_r in C. apply andb_prop in C. destruct C as [C1 C2].
+  destruct H as [H|H]; rewrite H in *; cbn [implb] in *; [exact C1|exact C2].
+Qed.
+
+Example ex_merge3 :
+  merge_ok (CU 2) CFull (CS 3) = true /\ merge_ok CFull (CU 2) (CU 3) = true /\ merge_ok (CU 2) (CU 2) (CU 3) = true /\
+  merge_ok (CS 2) (CU 2) (CS 3) = true /\ merge_ok (CS 2) (CU 2) (CU 3) = false /\
+  assign_ok (FView KU) (CS 2) (CS 3) = true /\
+  ceval (cast_emit (CU 3) (CS 3) (CS 2)) (enc (CS 2) 3) = Ok (VV KUns 3 7).
+Proof. vm_compute. repeat split. Qed.
